@@ -209,12 +209,14 @@ def _model(plan):
     return m, theta, pred
 
 
-def _simulate(ctx, plan, noise, noise_cov, script=None, strict=False, model=None, trial_cov=None):
+def _simulate(ctx, plan, noise, noise_cov, script=None, strict=False, model=None, trial_cov=None, design_override=None):
     from rsatoolbox.simulation import make_dataset
     m, theta, pred = _model(plan)
     if model is not None:
         m = model           # the caller's model object, reused across calls (pred is always recomputed from the plan)
     cv, cidx, labels, _ = _design(plan)
+    if design_override is not None:
+        cv, cidx = design_override       # the caller's own (re-used, edited) condition vector object
     seam = RngSeam(ctx, plan['serve_seed'], plan.get('faults'), script=script, strict_script=strict)
     with seam:
         kw = {}
@@ -543,6 +545,41 @@ def execute(plan, ctx):
                           f'right after the call; after later simulations it reports {des.get("signal")}/{des.get("noise")}/{des.get("model")}')
             return
     ctx.probe('descriptors_rechecked')
+    # ---- the caller re-orders its own condition vector in place (another trial order for the next session) and simulates
+    # again with that same array object: the new data follow the vector as it is now
+    if (isinstance(cv, np.ndarray) and cv.ndim == 1 and plan['use_exact_signal'] and not plan.get('signal_cov') and n_ch >= nc
+            and len(cv) > 1 and plan.get('perm_seed', 0) % 3 == 0):
+        import random as _random
+        order = list(range(len(cv)))
+        _random.Random(plan['perm_seed'] + 17).shuffle(order)
+        try:
+            _simulate(ctx, plan, 0, None, model=shared_model, design_override=(cv, cidx))      # this very object, as it is ...
+            cv[:] = cv[order]                                                                  # ... and right afterwards re-ordered
+        except HarnessError:
+            raise
+        except Exception:
+            order = None                  # (a read-only vector)
+        if order is not None:
+            cidx2 = np.asarray(cidx)[order]
+            try:
+                ds2, _, _ = _simulate(ctx, plan, 0, None, model=shared_model, design_override=(cv, cidx2))
+            except HarnessError:
+                raise
+            except Exception as e:
+                ctx.violation('sim_ref.raises', f'make_dataset:raises-after-reorder:{type(e).__name__}',
+                              f'make_dataset with the re-ordered condition vector raised {type(e).__name__}: {e}')
+                return
+            exp2 = plan['signal'] * pred
+            for s, d in enumerate(ds2):
+                got = _rdm_from_data(np.asarray(d.measurements), cidx2, nc)
+                err = float(np.max(np.abs(got - exp2)))
+                od = d.obs_descriptors.get('cond_vec')
+                if err > tol * scale or od is None or not np.array_equal(np.asarray(od, dtype=float), np.asarray(cv, dtype=float)):
+                    ctx.violation('sim_ref.clause1', 'make_dataset:exact-rdm:after-vector-reordered',
+                                  f'simulation {s} after the caller re-ordered its condition vector in place: RDM by condition (rows '
+                                  f'grouped by the vector as passed) differs from signal*model RDM by {err}')
+                    return
+            ctx.probe('reordered_vector_resimulated')
     rank = int(np.linalg.matrix_rank(pred)) if nc > 1 else 0
     ctx.behaviour(plan['kind'], 'rank%d/%d' % (rank, nc), plan['design'], plan['n_part'], n_sim, n_ch - nc,
                   plan['use_exact_signal'], plan['use_same_signal'], plan['signal'], plan['noise'], plan['noise_cov'])
